@@ -82,7 +82,18 @@ func vpC34StreamEOFPresent() bool {
 		out := vpC34ReadVia(vpC34PathStreamFn, []byte("3\r\nabc\r\n"), nil, false, 4096, []int{64})
 		vpC34StreamEOFIs = out.ok
 		if out.ok {
-			vpProbe(vpC34KeyStreamEOF, true, fmt.Sprintf("requestStream over \"3\\r\\nabc\\r\\n\"+EOF returns %q and then io.EOF (a complete body) although no last-chunk was received", out.body))
+			// the same through a server with StreamRequestBody
+			var hb []byte
+			var herr error
+			called := false
+			srv := &Server{StreamRequestBody: true, Logger: vpC34NopLogger{}, Handler: func(ctx *RequestCtx) {
+				called = true
+				hb, herr = io.ReadAll(ctx.RequestBodyStream())
+				hb = append([]byte(nil), hb...)
+			}}
+			conn := &vpC34Conn{r: bytes.NewReader([]byte("POST /u HTTP/1.1\r\nHost: vp\r\nTransfer-Encoding: chunked\r\n\r\n3\r\nabc\r\n")), sink: &vpC34Sink{budget: -1}}
+			srv.ServeConn(conn) //nolint:errcheck
+			vpProbe(vpC34KeyStreamEOF, true, fmt.Sprintf("requestStream over \"3\\r\\nabc\\r\\n\"+EOF returns %q and then io.EOF (a complete body) although no last-chunk was received; Server{StreamRequestBody} handler called=%v: io.ReadAll(ctx.RequestBodyStream()) = %q, %v", out.body, called, hb, herr))
 		} else {
 			vpProbe(vpC34KeyStreamEOF, false, fmt.Sprintf("requestStream now fails with %v when the input ends at a chunk boundary", out.err))
 		}
